@@ -34,6 +34,8 @@ import (
 	"io"
 	"net"
 	"os"
+	"runtime"
+	"runtime/debug"
 	"strings"
 	"sync"
 	"testing"
@@ -399,11 +401,10 @@ func (w *c06World) req() c06Req {
 func (w *c06World) guard(where string, fn func()) {
 	defer func() {
 		if r := recover(); r != nil {
-			st := vlib.AllStacks()
-			_ = st
+			st := string(debug.Stack())
 			w.mu.Lock()
 			if w.panicSig == "" {
-				w.panicSig = vlib.PanicSig(r, string(c06Stack()))
+				w.panicSig = vlib.PanicSig(r, st)
 				w.panicMsg = fmt.Sprintf("%s: panic: %v", where, r)
 			}
 			w.mu.Unlock()
@@ -412,9 +413,9 @@ func (w *c06World) guard(where string, fn func()) {
 	fn()
 }
 
-func c06Stack() []byte {
-	buf := make([]byte, 64<<10)
-	return buf[:runtimeStack(buf)]
+func c06AllStacks() string {
+	buf := make([]byte, 1<<20)
+	return string(buf[:runtime.Stack(buf, true)])
 }
 
 // recording wrapper around the principal's end of a target connection: every
@@ -1003,7 +1004,7 @@ func c06RunWith(t *testing.T, c c06Case, v *vlib.Verdict) {
 			return
 		}
 	case <-tm.C:
-		fmt.Fprintf(os.Stderr, "VERIF-MACHINERY C06: bubble hung in real time\n%s\n", vlib.AllStacks())
+		fmt.Fprintf(os.Stderr, "VERIF-MACHINERY C06: bubble hung in real time\n%s\n", c06AllStacks())
 		os.Exit(3)
 	}
 	w.mu.Lock()
